@@ -582,6 +582,17 @@ def inline_temps(fn):
                     body.remove(st)
                     changed = True
                     break
+                # a side-effect-free value that is only ever consumed by arithmetic / pure calls (never stored, returned, indexed
+                # for writing or handed to other code): its identity cannot be observed, every use may spell it out
+                if loads and 1 < len(loads) <= 4 and len(ast.unparse(e)) <= 60 and _pure(e) and not _reads_state(e) and _after(fn, st, loads, allow_loop=True) \
+                        and _names_fixed(sc, e) and _same_loop(fn, st, loads) and _elements_stable(fn, e) and all(_consumed_purely(fn, l) for l in loads):
+                    for b2 in _blocks(fn):
+                        for k, s2 in enumerate(b2):
+                            if s2 is not st:
+                                b2[k] = _Subst(t, e).visit(s2)
+                    body.remove(st)
+                    changed = True
+                    break
                 # a name for an attribute chain of a fixed object (groups = new._landmark_groups): every use may read the chain
                 # itself, provided nothing in the function can re-bind an attribute of that name and the object is not handed
                 # to code that could (no call on it, no call receiving it, between the definition and the last use)
@@ -644,6 +655,34 @@ def _index_arith(e):
         # the extent of an array along an axis does not change while the name stays bound to it
         return isinstance(e.value, ast.Attribute) and e.value.attr == "shape" and isinstance(e.value.value, ast.Name) and isinstance(e.slice, ast.Constant)
     return False
+
+
+def _consumed_purely(fn, load):
+    """the value read at `load` flows straight into an arithmetic operator or a side-effect-free call (possibly through .T /
+    read-only indexing / a method receiver) -- it is not stored, returned, put in a container or passed to unknown code"""
+    parents = {}
+    for n in ast.walk(fn):
+        for c in ast.iter_child_nodes(n):
+            parents[id(c)] = n
+    cur = load
+    while True:
+        par = parents.get(id(cur))
+        if par is None:
+            return False
+        if isinstance(par, ast.BinOp) or isinstance(par, ast.UnaryOp) or isinstance(par, ast.Compare):
+            return True
+        if isinstance(par, ast.Call):
+            return _pure(ast.Call(func=par.func, args=[], keywords=[])) if (cur in par.args or par.func is cur or any(k.value is cur for k in par.keywords)) else False
+        if isinstance(par, ast.Attribute) and isinstance(par.ctx, ast.Load):
+            cur = par
+            continue
+        if isinstance(par, ast.Subscript) and isinstance(par.ctx, ast.Load) and par.value is cur:
+            cur = par
+            continue
+        if isinstance(par, ast.keyword):
+            cur = par
+            continue
+        return False
 
 
 def _elements_stable(fn, e):
